@@ -115,7 +115,7 @@ CHECKS = {
     ),
     "C05": dict(
         technique="TLA+ spec OpPairs/DoMerge (TLC exhaustive) + real merged trees judged by TLC (TracePairs) + execution replay in IterProgram",
-        text="TLC enumerates all adjacent pairs incl. every slice pair with start 0..4 and stop None/start..6 (900 pairs on targets of length 0..6), all 441 pairs of sort-term lists of length <=2, all predicate shapes of the menu, and proves on the code-shaped Simplify/_finish_apply rules that the merged tree denotes the two operations in sequence and that merging never raises; the REAL tree obtained by applying the two operations through the public apply() is projected and handed back to TLC, which evaluates its denotation on every target.",
+        text="TLC enumerates all adjacent pairs incl. every slice pair with start 0..4 and stop None/start..6 (900 pairs on targets of length 0..6), all 441 pairs of sort-term lists of length <=2, all predicate shapes of the menu, and proves on the code-shaped Simplify/_finish_apply rules that the merged tree denotes the two operations in sequence and that merging never raises; the REAL tree obtained by applying the two operations through the public apply() is projected and handed back to TLC, which evaluates its denotation on every target. The interval arithmetic of Slice.then is additionally PROVED for all naturals with TLAPS (spec/SliceThenProof.tla, tlapm SMT backend, 1 obligation) and tied by TLC to the specification's rule.",
         design_ref="§6 C05",
         note="bounded as C04; execution-level confirmation (real iteration engine rows) is part of the C01 check",
     ),
